@@ -1,6 +1,7 @@
 import GoPlugin.Props.C06
 import GoPlugin.Props.IdAlloc
 import GoPlugin.Generated.Facts
+import GoPlugin.Props.Hygiene
 /- C06 at the facts extracted from the current source. -/
 namespace GoPlugin.Instance.C06
 open GoPlugin MuxBroker Props.C06
@@ -34,5 +35,8 @@ theorem holds_ids_distinct (es : List IdAlloc.Ev) (s : IdAlloc.State) (hr : IdAl
 theorem holds_accept_bookkeeping (nothingParked : Bool) (n m : Nat) :
     timeoutReleasesLock Facts.muxAccept nothingParked = true ∧ acceptSlotAfterDial Facts.muxAccept n m = true :=
   accept_bookkeeping _ (by decide) nothingParked n m
+
+theorem holds_one_slot_per_id (together : Bool) : Hygiene.slotsAfterRendezvous Facts.hygiene together = 1 :=
+  Props.Hygiene.one_slot_per_id _ (by decide) together
 
 end GoPlugin.Instance.C06
